@@ -153,7 +153,8 @@ class Check:
                   "compiler": ("src/paulie/application/pauli_compiler.py", "CompGen.v", "CompRefine.v", "Model/Compiler.v"),
                   "pstring": ("src/paulie/common/pauli_string_bitarray.py", "PSGen.v", "PSRefine.v", "Model/Pauli.v"),
                   "collection": ("src/paulie/common/pauli_string_collection.py", "CollGen.v", "CollRefine.v", "Model/Collection.v"),
-                  "parser": ("src/paulie/common/pauli_string_parser.py", "ParserGen.v", "ParserRefine.v", "Model/Parser.v")}
+                  "parser": ("src/paulie/common/pauli_string_parser.py", "ParserGen.v", "ParserRefine.v", "Model/Parser.v"),
+                  "table": ("src/paulie/common/two_local_generators.py", "TableGen.v", "TableRefine.v", "Model/Families.v")}
 
     def check_translation(self, kind="classification"):
         """Regenerate the Gallina translation of part of the source from REPO's working tree (tools/py2coq.py) and
